@@ -69,6 +69,10 @@ def templates(maxlen):
                 t.insert(p1, "X")
                 t.insert(p2, "X2")
                 out.append(tuple(t))
+    # ... and in THREE positions (the general path of a primitive with more than two traced operands)
+    out.append(("X3", "X", "X2"))
+    out.append(("X", "X3", "X2"))
+    out.append(("X", "X2", "X3"))
     return out
 
 
@@ -113,7 +117,7 @@ def value_of(atom, shape, x, Cv):
 
 def instantiate(t, xx, Cv):
     """X2 is a second occurrence of the differentiated array (shifted and scaled so that e.g. clip bounds stay ordered)."""
-    return [xx if a == "X" else ((xx * 0.5 + 2.0) if a == "X2" else (Cv if a == "C" else a)) for a in t]
+    return [xx if a == "X" else ((xx * 0.5 + 2.0) if a == "X2" else ((xx * 0.25 - 1.0) if a == "X3" else (Cv if a == "C" else a))) for a in t]
 
 
 def float_like(r):
@@ -202,7 +206,7 @@ def scan_item(item, maxlen, seed):
                     def f_ag(xx):
                         return call_ag(instantiate(t, xx, Cv))
 
-                    expr = "%s.%s(%s)" % (nsname, name, ", ".join({"X": "X", "X2": "(X*0.5+2.0)", "C": "C"}.get(a, repr(a)) if isinstance(a, str) else repr(a) for a in t)) if kind == "fn" \
+                    expr = "%s.%s(%s)" % (nsname, name, ", ".join({"X": "X", "X2": "(X*0.5+2.0)", "X3": "(X*0.25-1.0)", "C": "C"}.get(a, repr(a)) if isinstance(a, str) else repr(a) for a in t)) if kind == "fn" \
                         else "X.%s%s" % (name, "" if not callable(getattr(onp.ndarray, name, None)) else "(%s)" % ", ".join("C" if a == "C" else repr(a) for a in t[1:]))
                     for mode in ("rev", "fwd"):
                         try:
